@@ -708,6 +708,19 @@ func genCore(prop string, seed uint64, tier string, g genCfg) *Scenario {
 				short(body.Clients[ci].Ops[oi].Data)
 			}
 		}
+		// the data flag 0x20 ("first or last") on value operations carried by lock requests (first locks,
+		// further levels, updates, requests granted from the queue); again a draw stream of its own
+		fl := ssched.Sub(seed, "firstlast")
+		for ci := range body.Clients {
+			if body.Clients[ci].Kind == "text" {
+				continue
+			}
+			for oi := range body.Clients[ci].Ops {
+				if o := &body.Clients[ci].Ops[oi]; o.Cmd == 1 && o.Data != nil && o.Data.Op != "pipeline" && fl.Intn(4) == 0 {
+					o.Data.FirstLast = true
+				}
+			}
+		}
 	}
 	raw, _ := json.Marshal(body)
 	sc := &Scenario{Knobs: genKnobs(r), Sched: genSched(r, seed), Body: raw, MaxSimS: 4*maxE + 700}
